@@ -13,7 +13,8 @@ file names, package names, source strings             `Path = List String` (comp
 `append(AllSources(), AllData()...)` as `String()`    `C.inputs t` (labels and system files can never match a repo path)
 `s == source || strings.HasPrefix(source, s+"/")`     `s = rel ∨ s` is a proper component prefix of `rel`
 `diffGraphs(before, after)`                           `changed0` (given: the model does not contain RuleHash, see C08)
-`state.ShouldInclude`, subrepos                       not modelled (no include/exclude labels, no subrepos)
+`state.ShouldInclude(t)` (`--include`/`--exclude`)     `C.incl t`, computed by `shouldInclude` from the target's labels; subrepos and
+                                                      `ExcludeTargets`, label patterns ending in `*` and the pseudo-label `test` are not modelled
 -/
 namespace PlzVerif.Changes
 open PlzVerif.Query
@@ -26,6 +27,15 @@ structure CGraph where
   pkgOf : Nat → Path             -- `t.Label.PackageName`
   inputs : Nat → List Path       -- sources and data of `t`, relative to its package
   tools : Nat → List Path        -- local file tools of `t` (`AllTools()` that are `FileLabel`s)
+  incl : Nat → Bool              -- `state.ShouldInclude(t)`
+
+/-- `target.ShouldInclude(includes, excludes)`: each entry is a comma-separated list of labels the target must ALL have -/
+def shouldInclude (labels : List String) (includes excludes : List (List String)) : Bool :=
+  if includes.isEmpty && excludes.isEmpty then true
+  else
+    let inc := includes.isEmpty || includes.any fun i => i.all (labels.contains ·)
+    let exc := excludes.any fun e => e.all (labels.contains ·)
+    if exc then false else inc
 
 /-- `s == source || strings.HasPrefix(source, s+"/")` on clean paths -/
 def matchesInput (s rel : Path) : Bool := s == rel || (s.length < rel.length && s.isPrefixOf rel)
@@ -56,11 +66,18 @@ def changedByFiles (C : CGraph) (files : List Path) : List Nat :=
     | none => []
     | some pkg => C.G.nodes.filter fun t => C.pkgOf t == pkg && hasAbsoluteSource C t f
 
-/-- `changedTargets(state, files, changed0, level, false)`: ids, unsorted, possibly repeated -/
-def changedTargets (cfg : Cfg) (C : CGraph) (files : List Path) (changed0 : List Nat) (level : Option Limit) : List Nat :=
+/-- `changedTargets(state, files, changed0, level, false)`: ids, unsorted, possibly repeated.
+`seedsFiltered` is read from the source: does the loop that collects the labels of the directly changed targets — the
+seeds of the reverse-dependency walk — test `ShouldInclude`?  (The pinned code filters only the final list.) -/
+def changedTargets (cfg : Cfg) (seedsFiltered : Bool) (C : CGraph) (files : List Path) (changed0 : List Nat)
+    (level : Option Limit) : List Nat :=
   let changed := changed0 ++ changedByFiles C files
-  match level with
-  | none => changed                                       -- `level == 0`: no reverse dependencies
-  | some lim => changed ++ ((findRevdeps cfg C.G lim true changed).ret.filter fun d => !changed.contains d)
+  -- `for target := range changed { labels = append(labels, target.Label) }`
+  let seeds := if seedsFiltered then changed.filter C.incl else changed
+  let labels := match level with
+    | none => seeds                                       -- `level == 0`: no reverse dependencies
+    | some lim => seeds ++ ((findRevdeps cfg C.G lim true seeds).ret.filter fun d => !changed.contains d)
+  -- `if state.ShouldInclude(t) && … { ls = append(ls, l) }`
+  labels.filter C.incl
 
 end PlzVerif.Changes
